@@ -654,3 +654,21 @@ package soyhtml
 //@   nosafety
 
 // C13: builtin functions over maps do not depend on map iteration order.
+
+// C08 / C09: configuring a renderer stores the caller's values and touches
+// nothing else - in particular not the contents of the caller's maps.
+//@ func (*Renderer).Inject
+//@   props C08 C09
+//@   nosafety
+//@   modifies r.ij
+//@   ensures[stores-the-callers-map;C08] result == r && r.ij == ij
+//@ func (*Renderer).WithMessages
+//@   props C08 C09
+//@   nosafety
+//@   modifies r.msgs
+//@   ensures result == r
+//@ func (*Tofu).NewRenderer
+//@   props C08 C09
+//@   nosafety
+//@   pure
+//@   ensures[fresh-renderer;C08] result != nil && fresh(result)
